@@ -221,8 +221,10 @@ def environments(chains, quick):
         # reverse the completion order: the lower the chain number the later it finishes
         envs.append({"name": "reversed completion", "hashseed": 1,
                      "delays": {"finish_after": {str(c): list(range(c + 1, chains)) for c in range(chains - 1)}}})
-        envs.append({"name": "rotated start", "hashseed": 0,
-                     "delays": {"start": {str(c): 2.5 * ((c + 1) % chains) for c in range(chains)}}})
+        # and the opposite, forced as well (the natural order of a loaded machine may coincide with either)
+        envs.append({"name": "ascending completion", "hashseed": 0,
+                     "delays": {"finish_after": {str(c): list(range(0, c)) for c in range(1, chains)},
+                                "start": {str(chains - 1): 1.5}}})
     else:
         envs.append({"name": "hashseed 1", "hashseed": 1})
     if not quick:
